@@ -28,7 +28,9 @@ Definition obs_of_outcome (during_compile : bool) (r : outcome value) : obs :=
   | OutOfFuel => OFuel
   end.
 
-Inductive cmp_mode := Exact | UpToPerm.
+(* KindOnly: the expression exposes the unspecified iteration order of an object with
+   several members; only value-versus-error is compared *)
+Inductive cmp_mode := Exact | UpToPerm | KindOnly.
 
 (* equality of values up to the order of array elements, recursively *)
 Section PermEq.
@@ -68,6 +70,7 @@ Definition val_match (m : cmp_mode) (a b : value) : bool :=
   match m with
   | Exact => value_eqb num_same a b
   | UpToPerm => perm_eqb (value_size a + 1) a b
+  | KindOnly => true
   end.
 
 (* cmp_off: compare syntax-error offsets too *)
